@@ -12,10 +12,13 @@ typedef struct Self { const XPath* m_countMatchPattern; const XPath* m_fromMatch
 enum { eSingle, eMultiple, eAny }; enum { XPath_eMatchScoreNone = 0 }; enum { XalanNode_DOCUMENT_NODE = 9 };
 XPath g_count_pat, g_from_pat, g_default_pat;
 /* ghost: the node the walk has just stepped to, and what was tested on it */
+const XalanNode* g_ps_node; bool g_ps_null;   /* the node whose previous sibling was asked for last, and whether there was none */
 const XalanNode* g_step; bool g_from_tested, g_from_res, g_count_tested, g_count_res; bool g_has_from, g_any;
 const XPath* xv_default_count_pattern(const Self* s, const XalanNode* n) __CPROVER_requires(n != 0) __CPROVER_assigns() __CPROVER_ensures(__CPROVER_return_value == &g_default_pat) ;
-XalanNode* xv_prev_sibling(const XalanNode* n) __CPROVER_requires(/* DOM navigation from a node */ n != 0) __CPROVER_assigns() __CPROVER_ensures(1) ;
-XalanNode* xv_parent(const XalanNode* n) __CPROVER_requires(n != 0) __CPROVER_assigns() __CPROVER_ensures(1) ;
+XalanNode* xv_prev_sibling(const XalanNode* n) __CPROVER_requires(/* DOM navigation from a node */ n != 0) __CPROVER_assigns(g_ps_node, g_ps_null) __CPROVER_ensures(g_ps_node == n && g_ps_null == (__CPROVER_return_value == 0)) ;
+XalanNode* xv_parent(const XalanNode* n) __CPROVER_requires(n != 0)
+__CPROVER_requires(/* backwards in document order: the parent is the previous node only of a node WITHOUT a previous sibling; going up (or stopping at the top) earlier would skip the preceding siblings and everything below them */ g_ps_node == n && g_ps_null == true)
+__CPROVER_assigns() __CPROVER_ensures(1) ;
 XalanNode* xv_last_child(const XalanNode* n) __CPROVER_requires(n != 0) __CPROVER_assigns() __CPROVER_ensures(1) ;
 int xv_node_type(const XalanNode* n) __CPROVER_requires(n != 0) __CPROVER_assigns() __CPROVER_ensures(1) ;
 int xv_match(const XPath* p, const XalanNode* n)
@@ -28,7 +31,7 @@ __CPROVER_ensures(p == &g_from_pat ? (g_from_tested == true && g_from_res == (__
                                     : (g_count_tested == true && g_count_res == (__CPROVER_return_value != XPath_eMatchScoreNone) && g_from_tested == __CPROVER_old(g_from_tested) && g_from_res == __CPROVER_old(g_from_res))) ;
 @@FN getPreviousNode@@
 void h_previous(void)
-{ bool h, a; g_has_from = XV_BOOL(h); g_any = XV_BOOL(a); g_step = 0; g_from_tested = false; g_count_tested = false; g_from_res = false; g_count_res = false; Self* s; XalanNode* n; getPreviousNode(s, 0, n); }
+{ bool h, a; g_has_from = XV_BOOL(h); g_any = XV_BOOL(a); g_ps_node = 0; g_ps_null = false; g_step = 0; g_from_tested = false; g_count_tested = false; g_from_res = false; g_count_res = false; Self* s; XalanNode* n; getPreviousNode(s, 0, n); }
 '''
 R = [(r'StylesheetExecutionContext::XPathGuard\s+xpathGuard\(\s*executionContext\);', '', 1),
      (r'xpathGuard\.reset\(getCountMatchPattern\(executionContext, pos\)\);\s*countMatchPattern = xpathGuard\.get\(\);', 'countMatchPattern = xv_default_count_pattern(self, pos);', 1),
@@ -43,12 +46,12 @@ UNIT = Unit(
     name='c17_previous',
     props=['C17', 'C03'],
     functions=[Fn(EN, r'^ElemNumber::getPreviousNode\(', 'getPreviousNode', 'XalanNode* getPreviousNode(const Self* self, StylesheetExecutionContext* executionContext, XalanNode* pos)', rules=R, nloops=3,
-                  loops={0: '__CPROVER_assigns(pos, g_step, g_from_tested, g_from_res, g_count_tested, g_count_res)\n__CPROVER_loop_invariant(countMatchPattern != 0 && countMatchPattern != &g_from_pat && (fromMatchPattern == 0 || fromMatchPattern == &g_from_pat) && g_has_from == (fromMatchPattern != 0))',
+                  loops={0: '__CPROVER_assigns(pos, g_ps_node, g_ps_null, g_step, g_from_tested, g_from_res, g_count_tested, g_count_res)\n__CPROVER_loop_invariant(countMatchPattern != 0 && countMatchPattern != &g_from_pat && (fromMatchPattern == 0 || fromMatchPattern == &g_from_pat) && g_has_from == (fromMatchPattern != 0))',
                          1: '__CPROVER_assigns(child, next)\n__CPROVER_loop_invariant(next != 0)',
-                         2: '__CPROVER_assigns(pos, g_step, g_from_tested, g_from_res, g_count_tested, g_count_res)\n__CPROVER_loop_invariant(countMatchPattern != 0 && countMatchPattern != &g_from_pat)'},
+                         2: '__CPROVER_assigns(pos, g_ps_node, g_ps_null, g_step, g_from_tested, g_from_res, g_count_tested, g_count_res)\n__CPROVER_loop_invariant(countMatchPattern != 0 && countMatchPattern != &g_from_pat)'},
                   contract='''__CPROVER_requires(__CPROVER_is_fresh(self, sizeof(*self)) && pos != 0 && (self->m_level == eSingle || self->m_level == eMultiple || self->m_level == eAny))
 __CPROVER_requires((self->m_countMatchPattern == 0 || self->m_countMatchPattern == &g_count_pat) && (self->m_fromMatchPattern == 0 || self->m_fromMatchPattern == &g_from_pat) && g_has_from == (self->m_fromMatchPattern != 0) && g_any == (self->m_level == eAny))
-__CPROVER_assigns(g_step, g_from_tested, g_from_res, g_count_tested, g_count_res)
+__CPROVER_assigns(g_ps_node, g_ps_null, g_step, g_from_tested, g_from_res, g_count_tested, g_count_res)
 __CPROVER_ensures(/* the node returned is one that matches the count pattern (and, for level="any", not the from pattern) */
     __CPROVER_return_value != 0 ==> (g_step == __CPROVER_return_value && g_count_tested == true && g_count_res == true && ((self->m_level == eAny && g_has_from == true) ==> (g_from_tested == true && g_from_res == false))))'''),
     ],
@@ -56,6 +59,8 @@ __CPROVER_ensures(/* the node returned is one that matches the count pattern (an
     jobs=[Job('previous', 'h_previous', enforce=['getPreviousNode'], replace=['xv_default_count_pattern', 'xv_prev_sibling', 'xv_parent', 'xv_last_child', 'xv_node_type', 'xv_match'],
               loop_contracts=True, reach='all', timeout=300, min_obligations=6)],
     mutants=[
+        Mutant('top_of_tree_test_before_siblings', EN, r'XalanNode\* next = pos->getPreviousSibling\(\);\s*if\(0 == next\)\s*\{\s*next = pos->getParentNode\(\);\s*if\(0 == next \|\|\s*next->getNodeType\(\) == XalanNode::DOCUMENT_NODE\)\s*\{\s*pos = 0; // return 0 from function\.\s*break; // from while loop\s*\}\s*\}',
+               'XalanNode* const parent = pos->getParentNode();\n            if(0 == parent || parent->getNodeType() == XalanNode::DOCUMENT_NODE)\n            {\n                pos = 0;\n                break;\n            }\n            XalanNode* next = pos->getPreviousSibling();\n            if(0 == next)\n            {\n                next = parent;\n            }', expect='backwards in document order'),
         Mutant('from_only_on_ancestors', EN, r'(            pos = next;\s*assert\(pos != 0\);\s*)// The walk ends at the first node.*?break; // from while loop\s*\}\s*', r'\1', expect=None),
         Mutant('null_parent_matched', EN, r'if\(0 == next \|\|\s*next->getNodeType\(\) == XalanNode::DOCUMENT_NODE\)', 'if(0 != next &&\n                   next->getNodeType() == XalanNode::DOCUMENT_NODE ||\n                   (0 != fromMatchPattern &&\n                        fromMatchPattern->getMatchScore(\n                            next,\n                            *this,\n                            executionContext) != XPath::eMatchScoreNone))', expect='null node'),
     ],
